@@ -22,6 +22,8 @@
    stub_comm_size/rank/dup/split/free/group, stub_group_size/rank/free, stub_init_thread      stored output, returned code
    stub_wait, stub_waitall, stub_testall, stub_waitsome           (ok, stored *flag / *outcount, returned code), loops fuelled
    stub_error_class, stub_error_string, stub_strings
+ * sc_mpi_sizeof_mpi: sc_mpi_sizeof from the same source in the configuration WITH MPI (sc_config.h with SC_ENABLE_MPI, include
+   directories of `mpicc --showme:incdirs`): `&ompi_mpi_<x>` (the object behind a predefined handle) is the parameter addr_ompi_mpi_<x>.
 coq/C16/MpiGen.v proves that the hand-written model (MpiModel.v) computes exactly these."""
 import os, re, subprocess
 
@@ -71,6 +73,7 @@ def register(GROUPS, c2g, incs, REPO, HERE, STRUCTS, Group):
         class S16(sl.SliceT):
             const_index = False
             track_abort = False
+            abort_returns = False
 
             def __init__(self, **kw):
                 super().__init__(**kw)
@@ -80,6 +83,11 @@ def register(GROUPS, c2g, incs, REPO, HERE, STRUCTS, Group):
             ret_void = property(lambda self: False, lambda self, v: None)
 
             def expr(self, n, env):
+                if n.get("kind") == "UnaryOperator" and n.get("opcode") == "&":
+                    # the address of a global object (OpenMPI's predefined handles) is the parameter addr_<name>
+                    tgt = sl.strip(n["inner"][0])
+                    if tgt.get("kind") == "DeclRefExpr" and tgt.get("referencedDecl", {}).get("kind") == "VarDecl" and tgt["referencedDecl"]["name"] not in env:
+                        return c2g.E(self.lookup(env, "addr_" + tgt["referencedDecl"]["name"]), "Z", True)
                 if n.get("kind") == "StringLiteral":
                     # a string literal is the "address" 1 + its index in the generated list stub_strings
                     import json as _json
@@ -112,6 +120,8 @@ def register(GROUPS, c2g, incs, REPO, HERE, STRUCTS, Group):
                 super().referenced(s, acc)
 
             def stmts(self, ss, env, K):
+                if S16.abort_returns and ss and ss[0].get("kind") == "CallExpr" and sl.callee_name(ss[0]) == "sc_abort_verbose":
+                    return K["ret"](c2g.E("sizeof_aborts", "Z", True), env)      # SC_ABORT_NOT_REACHED ()
                 # SC_CHECK_ABORT (c, ..): the ghost `ok` (1 at the start) becomes ok && c; execution continues
                 if ss and self.abort_cond_of(ss[0]) is not None:
                     c = self.expr(self.abort_cond_of(ss[0]), env)
@@ -224,6 +234,27 @@ def register(GROUPS, c2g, incs, REPO, HERE, STRUCTS, Group):
                 raise c2g.Unsupported("enumerator program does not compile: " + p.stdout.decode()[-400:])
             out2 = subprocess.run([exe2], stdout=subprocess.PIPE).stdout.decode()
             g.text = g.text.replace("Definition sizeof_aborts", out2 + "Definition sizeof_aborts", 1)
+        # ---------------------------------------------------------------- sc_mpi_sizeof in the configuration WITH MPI (OpenMPI's mpi.h)
+        q = subprocess.run(["mpicc", "--showme:incdirs"], stdout=subprocess.PIPE, stderr=subprocess.DEVNULL)
+        if q.returncode != 0:
+            raise c2g.Unsupported("mpicc --showme:incdirs fails")
+        import vlib
+        inc_mpi = os.path.join(tmp, "inc_mpi")
+        os.makedirs(inc_mpi, exist_ok=True)
+        vlib.make_config_h(os.path.join(inc_mpi, "sc_config.h"), "ompi", True, False)
+        mincs = [inc_mpi] + [x for x in incs(tmp) if not x.startswith(os.path.join(tmp, "inc"))] + q.stdout.decode().split()
+        fm = c2g.find_function(c2g.clang_ast(f, "sc_mpi_sizeof", mincs), "sc_mpi_sizeof")
+        saved = sl.SliceT
+        sl.SliceT = S16
+        S16.const_index, S16.track_abort, S16.abort_returns = False, False, True
+        try:
+            t, i = sl.emit_block([c for c in fm["inner"] if c.get("kind") == "CompoundStmt"][0].get("inner", []), "sc_mpi_sizeof_mpi", ["ret"],
+                                 "sc_mpi_sizeof (SC_ENABLE_MPI)", params=("t",), ret="ret",
+                                 comment="sc_mpi_sizeof compiled against OpenMPI's mpi.h: addr_<x> = the address of the global object x behind a predefined handle")
+        finally:
+            sl.SliceT = saved
+            S16.abort_returns = False
+        g.add(t, i)
         return g, [f, os.path.join(REPO, "src", "sc_mpi.h"), os.path.join(REPO, "src", "sc3_mpi_types.h"), w]
 
     GROUPS["MpiC16"] = gen
